@@ -224,11 +224,24 @@ pub fn run(rep: &mut Rep) {
         let mut rng = Rng::derive(seed, "c11-alias", case);
         let mut g = G::new(&mut rng);
         let body = encode(&gen_message(&cm, &mut g));
-        let body = if rng.chance(1, 4) {
-            let cut = rng.usize(body.len() + 1);
-            body[..cut].to_vec()
-        } else {
-            body
+        let body = match rng.below(8) {
+            0 | 1 => {
+                let cut = rng.usize(body.len() + 1);
+                body[..cut].to_vec()
+            }
+            2 | 3 => {
+                // trailing bytes after the complete map (zero and non-zero, short and long)
+                let mut b = body;
+                let n = *rng.pick(&[1usize, 2, 8, 64, 1000]);
+                let fill = match rng.below(3) {
+                    0 => vec![0u8; n],
+                    1 => vec![0xffu8; n],
+                    _ => rng.bytes(n),
+                };
+                b.extend_from_slice(&fill);
+                b
+            }
+            _ => body,
         };
         let mut a = vec![0x0a];
         a.extend_from_slice(&body);
